@@ -573,6 +573,11 @@ def tconnect_cases(ctx, w):
                     st, v = with_watchdog(lambda: s.tc.connect(**kw), 25)
                     kex_ok = bool(s.tc.initial_kex_done)
                     auth_sent = bool(s.server_saw(5) or s.server_saw(50))
+                    followup = None
+                    if cred is None and st == "ok" and (expected not in (None, "rsa") or badsig):
+                        # two-step use of the API: connect(hostkey=K) returned, the caller now authenticates
+                        followup = try_auth(w, s.tc, "password", [])
+                        auth_sent = bool(s.server_saw(5) or s.server_saw(50))
                     # before the key exchange completes the failure surfaces as IncompatiblePeer / SSHException or,
                     # when the server side gave up first, EOFError: all "raised, nothing sent" (code 1)
                     code = 0 if st == "ok" else (1 if (isinstance(v, p.SSHException) or not kex_ok) else 100)
@@ -595,7 +600,9 @@ def tconnect_cases(ctx, w):
                         ctx.fail("transport-connect-auth-despite-hostkey-mismatch",
                                  "Transport.connect authenticated / returned normally although the server's host "
                                  "key is not the expected one (or its signature is bad)", case=case,
-                                 expected="SSHException, nothing sent", observed={"auth_sent": auth_sent, "st": st})
+                                 expected="SSHException, nothing sent",
+                                 observed={"auth_sent": auth_sent, "st": st, "followup_auth_password": followup,
+                                           "server_callbacks": [x[0] for x in s.srv.seen]})
                     if not mismatch and not badsig and cred and not auth_sent:
                         ctx.fail("transport-connect-honest-failed", "Transport.connect did not authenticate to the "
                                  "expected server", case=case, observed=repr(v))
@@ -1212,6 +1219,125 @@ def reuse_cases(ctx, w):
 
 
 # --------------------------------------------------------------------------
+# 5. successive connections of ONE SSHClient to an UNKNOWN host: the policy decides every time
+
+
+def reconnect_cases(ctx, w):
+    """First connect: unknown host, the policy accepts the key it is shown.  Second connect through the same client
+    object to the same name: the server presents the same key / another key of the same type / a near-miss key /
+    a key of another type.  The policy must be consulted again, with the key now presented, and its refusal must
+    keep everything from the server."""
+    p = w.paramiko
+    rows = []
+    second_keys = {"same": w.rsa, "other-same-type": w.rsa2, "other-type": w.ed}
+    second_keys.update(w.near_miss)
+    kid = {"same": (1, 5), "other-same-type": (1, 6), "other-type": (2, 7), "rsa-hash-collider": (1, 8),
+           "rsa-other-exponent": (1, 9)}
+    combos = [(pol, sk, port) for pol in ("pin-first-key", "warning", "pin-first-key+policy-reset")
+              for sk in sorted(second_keys) for port in (22, 2222)]
+    if not ctx.thorough:
+        combos = [c for c in combos if c[2] == 22 and (c[0] == "pin-first-key" or c[1] in ("same", "other-same-type"))]
+    for pol, sk, port in combos:
+        host = "host17"
+        name = host if port == 22 else "[%s]:%d" % (host, port)
+        asked = []          # (hostname, key blob) every time the policy is consulted
+
+        class Pin(p.MissingHostKeyPolicy):
+            """accepts exactly the key it was created for (a pinning / prompting policy)"""
+
+            def missing_host_key(self, client, hostname, key):
+                asked.append((hostname, key.asbytes()))
+                if key.asbytes() != w.rsa.asbytes():
+                    raise p.SSHException("not the pinned key")
+
+        class Warn(p.WarningPolicy):
+            def missing_host_key(self, client, hostname, key):
+                asked.append((hostname, key.asbytes()))
+                return p.WarningPolicy.missing_host_key(self, client, hostname, key)
+
+        c = p.SSHClient()
+        c.set_missing_host_key_policy(Warn() if pol == "warning" else Pin())
+        sessions = []
+
+        def connect_once(key):
+            s = Session(w, host_key=key)
+            sessions.append(s)
+            s.start_server()
+
+            def factory(sock, **kw):
+                t = w.HookClient(sock, packetizer_class=s._client_packetizer(), **kw)
+                t.c17_obs = s.obs
+                s.tc = t
+                return t
+
+            def go():
+                with warnings.catch_warnings():
+                    warnings.simplefilter("ignore")
+                    c.connect(host, port=port, username=USER, password=PASSWORD, sock=s.csock,
+                              allow_agent=False, look_for_keys=False, transport_factory=factory, timeout=15)
+
+            st, v = with_watchdog(go, 25)
+            return s, st, v
+
+        try:
+            case = {"side": "sshclient-reconnect", "policy": pol, "second_server_key": sk, "port": port}
+            s1, st1, v1 = connect_once(w.rsa)
+            if st1 != "ok" or len(asked) != 1:
+                ctx.fail("sshclient-honest-failed", "first connect to an unknown host the policy accepts failed",
+                         case=case, observed=repr(v1))
+            try:
+                c._transport.close()
+            except Exception:
+                pass
+            if pol.endswith("policy-reset"):
+                c.set_missing_host_key_policy(Pin())
+            del asked[:]
+            s, st, v = connect_once(second_keys[sk])
+            kex_ok = bool(s.tc.initial_kex_done)
+            auth_sent = bool(s.server_saw(5) or s.server_saw(50))
+            accepts = pol == "warning" or sk == "same"
+            code = 0 if st == "ok" else (1 if isinstance(v, p.SSHException) or not kex_ok else 100)
+            impl = [code]
+            if kex_ok:
+                impl += [1]
+                if asked:
+                    impl += [3, 1 if (st == "ok" or auth_sent) else 0]
+                elif st == "ok" or auth_sent:
+                    impl += [2, 1]
+                if auth_sent:
+                    impl += [4]
+            polm = "(PCustom %s)" % ("true" if accepts else "false") if pol != "warning" else "PWarning"
+            text = "([], ([], []), (1, 2, %d), %s, (false, false, %s), (%d, %d))" % (
+                port, polm, coq(kex_ok), kid[sk][0], kid[sk][1])
+            rows.append((case, text, impl))
+            ctx.count(("reconnect", pol, sk, port), nontrivial=True, kind="sshclient-reconnect-" + sk)
+            want = [(name, second_keys[sk].asbytes())]
+            if kex_ok and asked != want:
+                ctx.fail("sshclient-policy-not-asked-on-reconnect",
+                         "a second connect of the same SSHClient to a still unknown host did not consult the "
+                         "missing-host-key policy with the key now presented", case=case,
+                         expected="one call with the presented key", observed="%d call(s)" % len(asked))
+            if not accepts and (auth_sent or s.srv.seen or st == "ok"):
+                ctx.fail("sshclient-auth-despite-policy-rejection",
+                         "on a reconnect the server presented a key the policy refuses, yet SSHClient authenticated "
+                         "to it", case=case, expected="SSHException, nothing sent",
+                         observed={"st": st, "auth_sent": auth_sent, "policy_calls": len(asked)})
+            if accepts and not auth_sent:
+                ctx.fail("sshclient-honest-failed", "reconnect to a host the policy accepts failed", case=case,
+                         observed=repr(v))
+            if PASSWORD.encode("utf-8") in bytes(s.csock.tap):
+                ctx.fail("password-in-plaintext", "the password appears in the raw byte stream", case=case)
+        finally:
+            try:
+                c.close()
+            except Exception:
+                pass
+            for x in sessions:
+                x.close()
+    return rows
+
+
+# --------------------------------------------------------------------------
 
 
 def run(ctx):
@@ -1221,7 +1347,7 @@ def run(ctx):
                 "(quick: seeded 60 % sample) or after the handshake, or signing other data; Transport.connect over "
                 "hostkey argument {none, same, other same type, other types} x bad signature x credential; "
                 "SSHClient.connect(sock=), through password= and through auth_strategy=, host names in lower and mixed case, over 10 known_hosts contents x {user, system} x 5 policies x {22, 2222} "
-                "(quick: all Reject/AutoAdd user cases, every stored-key mismatch x accepting policy, + 12 sampled + 24 with a server advertising gss-X / unknown kex names; thorough: the whole grid, every mismatch / unknown-host case again with a gss-advertising server + 40 sampled others, 40 with an unknown name, and the whole user-store grid through auth_strategy= and with a mixed-case host name).  policies refusing by raising SSHException / OSError subclasses / ValueError / KeyError / EOFError / a BaseException; the SAME SSHClient used for a second connect after a first connect / lookup / membership test and a mutation of its host key store (clear, del, pop, clear+load of another file, del+add, __setitem__, add of another type).  servers presenting a near-miss key (RSA modulus congruent to the stored one modulo the hash modulus; same modulus, other exponent); known_hosts FILES loaded through load_host_keys / load_system_host_keys (plain, tab, multi-name, hashed, comments, @revoked / @cert-authority / unknown marker lines) judged by an independent reference parser.  Every case is a distinct "
+                "(quick: all Reject/AutoAdd user cases, every stored-key mismatch x accepting policy, + 12 sampled + 24 with a server advertising gss-X / unknown kex names; thorough: the whole grid, every mismatch / unknown-host case again with a gss-advertising server + 40 sampled others, 40 with an unknown name, and the whole user-store grid through auth_strategy= and with a mixed-case host name).  policies refusing by raising SSHException / OSError subclasses / ValueError / KeyError / EOFError / a BaseException; the SAME SSHClient used for a second connect after a first connect / lookup / membership test and a mutation of its host key store (clear, del, pop, clear+load of another file, del+add, __setitem__, add of another type).  successive connects of one SSHClient to an unknown host under a pinning / warning policy with the second server presenting the same / another / a near-miss key; servers presenting a near-miss key (RSA modulus congruent to the stored one modulo the hash modulus; same modulus, other exponent); known_hosts FILES loaded through load_host_keys / load_system_host_keys (plain, tab, multi-name, hashed, comments, @revoked / @cert-authority / unknown marker lines) judged by an independent reference parser.  Every case is a distinct "
                 "script and reaches the guard / gating / comparison code, hence non-trivial.")
     ctx.trusted += ["model coq/Model/C17.v is hand-written; tied to transport.py / client.py / auth_handler.py by "
                     "gen/c17.py (AST ordering checks, fail-closed) and this scripted differential run",
@@ -1282,6 +1408,7 @@ def run(ctx):
     trows = tconnect_cases(ctx, w)
     crows = cconnect_cases(ctx, w)
     crows += reuse_cases(ctx, w)
+    crows += reconnect_cases(ctx, w)
     nf = file_cases(ctx, w)
     ctx.log("known_hosts files through the real parser: %d connects" % nf)
     if crows:
